@@ -33,11 +33,10 @@ Fixpoint segs_eqb (a b : list bytes) : bool :=
   end.
 
 (* FilesService::call after a successful parse, one directory, no index, no listing:
-   a NUL byte makes canonicalize() fail with InvalidInput (500); a regular file is served;
-   everything else (missing, directory, path through a file) is 404 *)
+   a regular file is served; everything else (missing, directory, path through a file, a name
+   containing NUL, which the operating-system layer refuses) is 404 *)
 Definition serve (segs : list bytes) : N * option bytes :=
-  if existsb (contains 0) segs then (500, None)
-  else if existsb (segs_eqb segs) tree_files then (200, Some (render segs))
+  if existsb (segs_eqb segs) tree_files then (200, Some (render segs))
   else (404, None).
 
 Definition cond_of (im inm ius ims : N) : cond :=
